@@ -147,7 +147,17 @@ func runRotate(c *ctx) error {
 		}
 		return nil
 	}
+	liveq := func() {
+		for _, w := range []uint32{r.off, r.off + 2016} {
+			r.QueryStats(strconv.Itoa(int(w)), int64(w), false)
+			r.nq++
+		}
+	}
 	ban := func(id uint32) {
+		// both live weeks are asked for immediately before and after the ban, with nothing in between: a
+		// record remembered from the first answer must not survive the ban
+		liveq()
+		defer liveq()
 		s.Authorize(s.BuildAuth(hx.AuthSpec{ID: id, Key: fmt.Sprintf("d%d", id), Cap: 12345, Signer: "gca"}))
 		var keep []uint32
 		for _, d := range r.devs {
